@@ -7,8 +7,9 @@ CONFIG = {
                 "byte, or that fails at any earlier step, is not advertised and an advertised copy is exact; a time-bounded export is exact inside its window; an import under new file names keeps each tombstone file with its TSM file and reads like the source. "
                 "Each run re-reads the name-test constants from the source and diffs model and spec against real tsdb.Stores "
                 "(BackupShard/ExportShard -> RestoreShard/ImportShard directly and through the coordinator CopyShard RPC over loopback with the backup "
-                "connection cut after k bytes). Partial: byte encodings of TSM/tombstone/tar are not modelled (sizes are inputs); the busy-snapshotter branch "
-                "of Backup loses the cache (refuted, known finding).",
+                "connection cut after k bytes). Partial: byte encodings of TSM/tombstone/tar are not modelled (sizes are inputs). A backup requested while a background cache snapshot is in flight "
+                "waits for it under Engine.snapshotMu (backup_waits_for_snapshot_in_flight; the harness pauses a real WriteSnapshot at its verifPoint and observes the backup held back); "
+                "the busy-snapshotter branch of CreateSnapshot, which would lose the cache, is unreachable since (kept refuted as the reason).",
         "note": "Trusts Coq kernel, genconsts, the harness (layer-A extraction through tsm1 readers, tar offsets), archive/tar semantics for truncated streams as modelled by `locate`.",
         "technique": "Coq proof (invariants over file lists, LWW lookup extensionality) on a Gallina model + differential correspondence against real tsdb.Store / coordinator.Service",
     },
@@ -20,9 +21,9 @@ CONFIG = {
     "harness_timeout": {"quick": 600, "thorough": 3000},
     "rule": "designed cases (empty / cache-only / one file / pending tombstone / rewrite after delete / compaction, for restore, import and RPC copy; every cut "
             "class of a three-member archive: header, data, padding, member boundary, each marker block; since thresholds at every member mtime +-1ns; export "
-            "windows equal to / inside / outside / in a gap of the file range; a busy snapshotter; foreign, directory and non-TSM members injected) then seeded "
+            "windows equal to / inside / outside / in a gap of the file range; a backup requested inside an in-flight cache snapshot; foreign, directory and non-TSM members injected) then seeded "
             "generation of shard histories (writes of 4 field types over 3 series, range deletes, cache snapshots, full compactions, unsnapshotted cache, "
-            "concurrent writes during the backup); distinct = distinct input description; non-trivial = the source holds at least one point",
+            "concurrent writes during the backup, ~2% of the cases a backup requested from a second goroutine while a real background snapshot is paused between writing and installing its file); distinct = distinct input description; non-trivial = the source holds at least one point",
     "trusted_base": [
         "C18: the layer-A state of the source (blocks per key of each TSM file, tombstone entries, cache values, file mtimes) is read back from the real shard "
         "directory with tsm1.NewTSMReader/BlockIterator/DecodeBlock, Tombstoner.Walk and Cache.Values; archive members are decoded the same way",
